@@ -344,18 +344,30 @@ func (w *World) buildReply(ep *Endpoint, pr *ProbeRec, hp *HopPlan, r *Reply) (b
 						blocks[i][0] -= uint32(300 * nz(k))
 						blocks[i][1] -= uint32(300 * nz(k))
 					}
+				case "sackStray":
+					// 1-7 stray bytes after the last block, still inside the option (length 2+8n+s)
 				case "sackOrder":
 					for i, j := 0, len(blocks)-1; i < j; i, j = i+1, j-1 {
 						blocks[i], blocks[j] = blocks[j], blocks[i]
 					}
 				}
 				opts = append(opts, 1, 1)
-				opts = append(opts, codec.SackOption(blocks)...)
+				so := codec.SackOption(blocks)
+				if r.Perturb == "sackStray" {
+					if len(blocks) > 2 {
+						so = codec.SackOption(blocks[:2])
+					}
+					for s := 1 + nz(k)%7; s > 0; s-- {
+						so = append(so, byte(0xa0+s))
+					}
+					so[1] = byte(len(so))
+				}
+				opts = append(opts, so...)
 			}
 			seg.Options = opts
 		}
 		switch r.Perturb {
-		case "", "sackEdge", "sackBelow", "sackOrder":
+		case "", "sackEdge", "sackBelow", "sackOrder", "sackStray":
 		case "sport":
 			seg.SrcPort += uint16(nz(k))
 		case "dport":
